@@ -382,6 +382,30 @@ def run(ck, F, tier):
             and len(dn.params) >= 2 and local_name(parses[0]["recv"]) == dn.params[1].get("name"),
             dn.span, "C constructor parses its `implementation` argument with FromStr (%d parse calls)" % len(parses))
     ck.floor("T7", "factory call sites", n7, 2)
+    # the name table is the whole parser: from_str rejects a string only because no table entry matches it (no other test - length,
+    # prefix, case - can turn a listed name away)
+    from ..trace import Tracer as _Tr
+    from ..symx import var, Poly, single_atom, atom_fn, atom_args, Unsupported
+    fsb = F.body("<decoder::factory::DecoderImplementation as std::str::FromStr>::from_str")
+    tfs = _Tr(F, "NONE", inline=lambda p_: F.private_helper(p_, "decoder::factory::"))
+    envf = {}
+    tfs.bind(fsb.params[0], var("s"), envf)
+    try:
+        tfs.eval(fsb.value, envf)
+        foreign = []
+        for e_ in tfs.events:
+            if e_.callee in ("<return>", "<return-inner>", "<panic>"):
+                for g_, p_ in e_.guards:
+                    ga_ = single_atom(g_) if isinstance(g_, Poly) else None
+                    subj_ok = ga_ is not None and atom_fn(ga_) in ("matches", "eq", "op_eq") and any(
+                        isinstance(x_, Poly) and x_ == var("s") for x_ in atom_args(ga_))
+                    if not subj_ok:
+                        foreign.append(repr(g_)[:80])
+        ck.inst("T2", "from_str:table-is-the-whole-parser", not foreign, fsb.span,
+                "every rejecting exit of from_str is conditioned on comparisons of the whole string with table entries only" +
+                ((" ; but also on " + " | ".join(foreign[:2])) if foreign else ""))
+    except Unsupported:
+        pass        # other spellings (delegation to clap, search over the Display names) are read by the T2 rules above
     # T8: what the factory returns is used through LdpcDecoder::decode, which must forward to the generic decoder unchanged
     from .c01 import forwarding_rule
     forwarding_rule(ck, F, "T8")
